@@ -2046,6 +2046,35 @@ impl<'a, C: Crypto> TransportRunner<'a, C> {
                     session.decode_remaining(&self.crypto, &mut packet.header, pb)?;
                 set_payload(packet, payload_range);
 
+                #[cfg(feature = "groups")]
+                if let session::SessionMode::Group { fab_idx, .. } = session.get_session_mode() {
+                    // The message authenticated under the key of a group session which is
+                    // still alive. Replay protection for group data messages is per sender
+                    // and outlives the (ephemeral) sessions, so it has to be consulted here
+                    // as well - the window of the session itself only knows the messages
+                    // received over that one session.
+                    let fab_idx = fab_idx.get();
+
+                    if !packet.header.plain.is_control_msg() {
+                        if let Some(src_nodeid) = packet.header.plain.get_src_nodeid() {
+                            if !state.sessions.group_post_recv(
+                                fab_idx,
+                                src_nodeid,
+                                packet.header.plain.ctr,
+                            ) {
+                                Err(ErrorCode::Duplicate)?;
+                            }
+                        }
+                    }
+
+                    let session = state
+                        .sessions
+                        .get_for_rx(&packet.peer, &packet.header.plain)
+                        .ok_or(ErrorCode::NoSession)?;
+
+                    return session.post_recv(&packet.header);
+                }
+
                 return session.post_recv(&packet.header);
             }
 
